@@ -2,75 +2,176 @@
 (***************************************************************************)
 (* Reward computation of the tasking engine (property C07, last clause):   *)
 (*   CentralizedTaskingEngine.calculateRewards =                           *)
-(*        Reward.normalizeMetrics  then  Reward.calculate                   *)
-(* in exact rational arithmetic.  A metric cube M[t][s][m] of small        *)
-(* integers is posed, normalised (each metric divided by its maximum over  *)
-(* all pairs when that maximum is positive) and combined:                  *)
-(*   "sum"      r = sum_m metric_m                                         *)
+(*        Reward.calculateMetrics (one COLUMN per configured metric, in    *)
+(*                                 the order of the reward's metric list)  *)
+(*        Reward.normalizeMetrics (tasking/rewards/reward_base.py)         *)
+(*        Reward.calculate        (tasking/rewards/rewards.py)             *)
+(* in exact rational arithmetic.                                           *)
+(*                                                                         *)
+(* The documented formulas speak about metric KINDS (the metric's          *)
+(* METRIC_TYPE label), never about positions:                              *)
+(*   "sum"      r = sum of all metrics                                     *)
 (*   "cost"     r = d*(sign(stab) + info) - (1-d)*sens                     *)
-(*   "combined" r = d*(sign(stab) + info) - (1-d)*sens + behaviour         *)
-(* Metric order in the cube: 1 stability, 2 information, 3 sensor,         *)
-(* 4 behaviour (only for "combined").  d = DeltaNum/DeltaDen.              *)
+(*   "combined" r = d*(sign(stab) + info) - (1-d)*sens + beh (staleness)   *)
+(* with each metric normalised (divided by its maximum over all pairs when *)
+(* that maximum is positive).  d = delta[1]/delta[2].                      *)
+(*                                                                         *)
+(* So the posed configuration has two independent parts:                   *)
+(*   kcube[t][s][kd]  the value of the metric of KIND kd for pair (t, s)   *)
+(*   order            the sequence in which the reward configuration lists *)
+(*                    the metric kinds (any permutation: the constructors  *)
+(*                    only require one metric of each kind)                *)
+(* and the matrix handed to the code is                                    *)
+(*   cube[t][s][c] = kcube[t][s][order[c]].                                *)
+(* Normalize / Calculate mirror the code (columns; a kind is looked up as  *)
+(* the column at which the order lists it - Reward._metric_type_indices).  *)
+(* The PROPERTY is stated on kinds only: RewardIsDocumentedCombination,    *)
+(* NormalisedByKind (the reward does not depend on the listing order).     *)
+(*                                                                         *)
+(* Cube families: the whole lattice [T -> [S -> [kinds -> MetricVals]]]    *)
+(* for the orders in FullOrders; for EVERY order the kind-distinct cubes:  *)
+(* the metric of kind kd has the fixed value LeadVal(kd, r), r in          *)
+(* Rotations (different for the four kinds) for the pair (1,1) and any     *)
+(* lattice value elsewhere, so no two columns are equal (DistinctColumns)  *)
+(* and a column read for the wrong kind changes the result.                *)
+(*                                                                         *)
+(* Deviation # "none" switches Calculate to a wrong column lookup; TLC     *)
+(* must then refute RewardIsDocumentedCombination (non-vacuity, cfg        *)
+(* Rewards_deviation*.cfg):                                                *)
+(*   "ColumnsByPositionInSublist"  stab/info/sens looked up by their       *)
+(*        position among the non-"beh" kinds (an inner cost-constrained    *)
+(*        reward built from the 3-metric sub-list, fed the 4-column matrix)*)
+(*   "ColumnsInDocumentedOrder"    columns assumed to be stab,info,sens,beh*)
 (* The spec is the oracle: every "rewarded" state is one implementation    *)
 (* test (spec -> impl replay).                                             *)
 (***************************************************************************)
 EXTENDS Integers, Sequences, FiniteSets, FiniteSetsExt, TLC, Json, Rationals
 
-CONSTANTS NT, NS, MetricVals, Kinds, Deltas   \* Deltas: set of <<num, den>>
+CONSTANTS NT, NS, MetricVals, Kinds, Deltas,   \* Deltas: set of <<num, den>>
+          FullOrders,                           \* orders that get the whole lattice of cubes
+          Rotations,                            \* subset of 0..3: which lead values the kinds get in DistinctK
+          Deviation                             \* "none" | name of a wrong column lookup (see header)
 
-VARIABLES pc, kind, delta, cube, norm, reward
-vars == <<pc, kind, delta, cube, norm, reward>>
+VARIABLES pc, kind, delta, order, kcube, cube, norm, reward
+vars == <<pc, kind, delta, order, kcube, cube, norm, reward>>
 
-NMetrics(k) == IF k = "combined" THEN 4 ELSE 3
 T == 1..NT
 S == 1..NS
+MKinds(k) == IF k = "combined" THEN {"stab", "info", "sens", "beh"} ELSE {"stab", "info", "sens"}
+DocOrder(k) == IF k = "combined" THEN <<"stab", "info", "sens", "beh">> ELSE <<"stab", "info", "sens">>
+NMetrics(k) == Cardinality(MKinds(k))
+Orders(k) == {o \in [1..NMetrics(k) -> MKinds(k)] : \A i, j \in 1..NMetrics(k) : o[i] = o[j] => i = j}
+KindIdx(kd) == CASE kd = "stab" -> 0 [] kd = "info" -> 1 [] kd = "sens" -> 2 [] kd = "beh" -> 3
 
-Init == /\ pc = "start" /\ kind = "none" /\ delta = <<1, 1>>
-        /\ cube = <<>> /\ norm = <<>> /\ reward = <<>>
+ASSUME Cardinality(MetricVals) >= 4 /\ Rotations \subseteq 0..3 /\ NT >= 1 /\ NS >= 1
 
+Init == /\ pc = "start" /\ kind = "none" /\ delta = <<1, 1>> /\ order = <<>>
+        /\ kcube = <<>> /\ cube = <<>> /\ norm = <<>> /\ reward = <<>>
+
+\* the summation reward has no delta: one value only
 PoseKind == /\ pc = "start"
-            /\ \E k \in Kinds, d \in Deltas : kind' = k /\ delta' = d
-            /\ pc' = "kind" /\ UNCHANGED <<cube, norm, reward>>
-PoseCube == /\ pc = "kind"
-            /\ \E c \in [T -> [S -> [1..NMetrics(kind) -> MetricVals]]] : cube' = c
-            /\ pc' = "posed" /\ UNCHANGED <<kind, delta, norm, reward>>
+            /\ \E k \in Kinds : \E d \in (IF k = "sum" THEN {CHOOSE x \in Deltas : TRUE} ELSE Deltas) :
+                  kind' = k /\ delta' = d
+            /\ pc' = "kind" /\ UNCHANGED <<order, kcube, cube, norm, reward>>
+\* RewardConfig.metrics: the metric kinds in any order
+PoseOrder == /\ pc = "kind"
+             /\ \E o \in Orders(kind) : order' = o
+             /\ pc' = "order" /\ UNCHANGED <<kind, delta, kcube, cube, norm, reward>>
 
+\* ---- cube families (posed in two stages so that TLC's workers share the enumeration) ----
+\* stage 1: the values of the pair (1,1), one per metric kind.  Whole lattice for the orders in
+\* FullOrders; for every order the kind-distinct leads LeadVal(kd, r), r \in Rotations
+ValAt(i) == CHOOSE v \in MetricVals : Cardinality({w \in MetricVals : w < v}) = i
+LeadVal(kd, r) == ValAt((KindIdx(kd) + r) % 4)
+DistinctLead(l) == \E r \in Rotations : \A kd \in DOMAIN l : l[kd] = LeadVal(kd, r)
+PoseLead == /\ pc = "order"
+            /\ \E l \in [MKinds(kind) -> MetricVals] :
+                  /\ order \in FullOrders \/ DistinctLead(l)
+                  /\ kcube' = l
+            /\ pc' = "lead" /\ UNCHANGED <<kind, delta, order, cube, norm, reward>>
+\* stage 2: all other pairs take any lattice value; the matrix is assembled as
+\* Reward.calculateMetrics does: array([metric.calculate(..) for metric in self.metrics]) -
+\* column c is the metric listed c-th
+FreeCells == (T \X S) \ {<<1, 1>>}
+PoseCube == /\ pc = "lead"
+            /\ \E g \in [MKinds(kind) -> [FreeCells -> MetricVals]] :
+                 LET kc == [t \in T |-> [s \in S |-> [kd \in MKinds(kind) |->
+                              IF <<t, s>> = <<1, 1>> THEN kcube[kd] ELSE g[kd][<<t, s>>]]]]
+                 IN /\ kcube' = kc
+                    /\ cube' = [t \in T |-> [s \in S |-> [c \in 1..NMetrics(kind) |-> kc[t][s][order[c]]]]]
+            /\ pc' = "posed" /\ UNCHANGED <<kind, delta, order, norm, reward>>
+
+\* Reward.normalizeMetrics: for met in range(len(self.metrics)): column-wise
 MaxOf(m) == Max({cube[t][s][m] : t \in T, s \in S})
 Normalize == /\ pc = "posed"
              /\ norm' = [t \in T |-> [s \in S |-> [m \in 1..NMetrics(kind) |->
                           IF MaxOf(m) > 0 THEN Norm(cube[t][s][m], MaxOf(m)) ELSE Q(cube[t][s][m])]]]
-             /\ pc' = "normalized" /\ UNCHANGED <<kind, delta, cube, reward>>
+             /\ pc' = "normalized" /\ UNCHANGED <<kind, delta, order, kcube, cube, reward>>
+
+\* Reward.__init__: _metric_type_indices[metric.metric_type] = position in the metric list
+PosIn(seq, x) == CHOOSE i \in DOMAIN seq : seq[i] = x
+NotBeh(k) == k # "beh"
+ColOf(kd) ==
+  CASE Deviation = "none" -> PosIn(order, kd)
+    [] Deviation = "ColumnsByPositionInSublist" ->
+          IF kd = "beh" THEN PosIn(order, kd) ELSE PosIn(SelectSeq(order, NotBeh), kd)
+    [] Deviation = "ColumnsInDocumentedOrder" -> PosIn(DocOrder(kind), kd)
 
 One == <<1, 1>>
-Cost(x) == QSub(QMul(delta, QAdd(Q(QSign(x[1])), x[2])), QMul(QSub(One, delta), x[3]))
+Cost(x) == QSub(QMul(delta, QAdd(Q(QSign(x[ColOf("stab")])), x[ColOf("info")])),
+                QMul(QSub(One, delta), x[ColOf("sens")]))
+RECURSIVE SumCols(_, _)
+SumCols(x, n) == IF n = 0 THEN Q(0) ELSE QAdd(SumCols(x, n - 1), x[n])
 RewardOf(x) ==
-  CASE kind = "sum"      -> QAdd(QAdd(x[1], x[2]), x[3])
+  CASE kind = "sum"      -> SumCols(x, NMetrics(kind))          \* np.sum over the metric axis
     [] kind = "cost"     -> Cost(x)
-    [] kind = "combined" -> QAdd(Cost(x), x[4])
+    [] kind = "combined" -> QAdd(Cost(x), x[ColOf("beh")])
 Calculate == /\ pc = "normalized"
              /\ reward' = [t \in T |-> [s \in S |-> RewardOf(norm[t][s])]]
-             /\ pc' = "rewarded" /\ UNCHANGED <<kind, delta, cube, norm>>
+             /\ pc' = "rewarded" /\ UNCHANGED <<kind, delta, order, kcube, cube, norm>>
 
-Next == PoseKind \/ PoseCube \/ Normalize \/ Calculate
+Next == PoseKind \/ PoseOrder \/ PoseLead \/ PoseCube \/ Normalize \/ Calculate
 Spec == Init /\ [][Next]_vars
 
+\* ---- C07, reward clause, stated on metric KINDS (independent of the listing order) ----
+KMax(kd) == Max({kcube[t][s][kd] : t \in T, s \in S})
+KNorm(t, s, kd) == IF KMax(kd) > 0 THEN Norm(kcube[t][s][kd], KMax(kd)) ELSE Q(kcube[t][s][kd])
+DocCost(t, s) == QSub(QMul(delta, QAdd(Q(QSign(KNorm(t, s, "stab"))), KNorm(t, s, "info"))),
+                      QMul(QSub(One, delta), KNorm(t, s, "sens")))
+Documented(t, s) ==
+  CASE kind = "sum"      -> QAdd(QAdd(KNorm(t, s, "stab"), KNorm(t, s, "info")), KNorm(t, s, "sens"))
+    [] kind = "cost"     -> DocCost(t, s)
+    [] kind = "combined" -> QAdd(DocCost(t, s), KNorm(t, s, "beh"))
+RewardIsDocumentedCombination ==
+  pc = "rewarded" => \A t \in T, s \in S : reward[t][s] = Documented(t, s)
+\* column c of the normalised matrix is the normalised metric of the kind listed c-th
+NormalisedByKind ==
+  pc = "normalized" =>
+     \A t \in T, s \in S, c \in 1..NMetrics(kind) : norm[t][s][c] = KNorm(t, s, order[c])
+\* the kind-distinct family really has pairwise different columns
+Column(c) == [t \in T |-> [s \in S |-> cube[t][s][c]]]
+DistinctColumns ==
+  pc = "posed" /\ order \notin FullOrders =>
+     \A c1, c2 \in 1..NMetrics(kind) : c1 # c2 => Column(c1) # Column(c2)
+
+\* (norm does not change after Normalize: the invariants on it are evaluated once, in "normalized")
 \* C07: each normalised metric is at most one
 NormalisedAtMostOne ==
-  pc \in {"normalized", "rewarded"} =>
+  pc = "normalized" =>
      \A t \in T, s \in S, m \in 1..NMetrics(kind) : QLe(norm[t][s][m], One)
 \* a metric whose maximum is positive attains exactly one somewhere
 NormalisedAttainsOne ==
-  pc \in {"normalized", "rewarded"} =>
+  pc = "normalized" =>
      \A m \in 1..NMetrics(kind) : MaxOf(m) > 0 => \E t \in T, s \in S : norm[t][s][m] = One
 \* normalisation keeps the order of the pairs within a metric
 NormalisedOrderKept ==
-  pc \in {"normalized", "rewarded"} =>
+  pc = "normalized" =>
      \A m \in 1..NMetrics(kind), t1 \in T, t2 \in T, s1 \in S, s2 \in S :
         cube[t1][s1][m] <= cube[t2][s2][m] => QLe(norm[t1][s1][m], norm[t2][s2][m])
 
-\* expected values handed to the replay driver
+\* expected values handed to the replay driver (cube/norm by COLUMN, order = kind of each column)
 Emit == pc = "rewarded" =>
-          PrintT("REWARD " \o ToJson([kind |-> kind, delta |-> delta, cube |-> cube,
+          PrintT("REWARD " \o ToJson([kind |-> kind, delta |-> delta, order |-> order, cube |-> cube,
                                       norm |-> norm, reward |-> reward]))
 
 \* ---- constant values for the cfg files (cfg syntax has no negative numbers / tuples) ----
@@ -78,4 +179,9 @@ ValsQuick    == {-1, 0, 2, 3}
 ValsThorough == {-2, -1, 0, 1, 2, 3}
 DeltasAll    == {<<17, 20>>, <<1, 2>>, <<1, 1>>, <<1, 10>>}
 DeltasQuick  == {<<17, 20>>, <<1, 2>>}
+DocOrdersOnly == {<<"stab", "info", "sens">>, <<"stab", "info", "sens", "beh">>}
+NoOrders      == {}
+RotQuick      == {0}
+RotTwo        == {0, 2}
+RotAll        == {0, 1, 2, 3}
 =============================================================================
